@@ -38,6 +38,8 @@ def run_item(it):
             return body(graph_to_molfile(graph_from_molfile_text(arg)))
         if op == "writecalc":
             return body(graph_to_molfile(graph_from_molfile_text(arg), calc_coordinates=True))
+        if op == "writecalccanon":
+            return body(graph_to_molfile(canonicalize_molecule(graph_from_molfile_text(arg)), calc_coordinates=True))
         if op == "writeparsed":
             return body(graph_to_molfile(canonicalize_molecule(graph_from_tucan(arg))))
     except BaseException as ex:  # noqa
